@@ -49,6 +49,40 @@ def describe(lp, names=True):
     return {"var": vk, "d": v.get("d"), "init": key(v.c[0].strip(), names), "upper": upper, "step": step, "node": lp}
 
 
+def bounds(lp, sub=None):
+    """inclusive bounds of a counting for-loop as keys with single-definition locals inlined (sub): dict(d, init, upper, step) or None.
+    `v <= B`, `B >= v`, `v < B + 1`, `v < B` (-> B - 1) are all understood - rules must take the upper bound from here, never from the
+    shape of the condition."""
+    d = describe(lp, names=False)
+    if d is None:
+        return None
+    init, cond = lp.c[0], lp.c[1].strip()
+    vd = [m for m in init.walk() if m.k == "VarDecl" and m.c][0]
+    out = {"d": d["d"], "step": d["step"], "node": lp, "init": key(vd.c[0].strip(), False, sub)}
+    vk = "v%d" % d["d"]
+    a, b = cond.c[0].strip(), cond.c[1].strip()
+    if cond.op in ("<=", "<") and key(a) == vk:
+        other = b
+    elif cond.op in (">=", ">") and key(b) == vk:
+        other = a
+    else:
+        return None
+    ok_ = key(other, False, sub)
+    if cond.op in ("<=", ">="):
+        out["upper"] = ok_
+    else:
+        o = other
+        if o.k == "BinaryOperator" and o.op == "+" and key(o.c[1].strip()) == "1":
+            out["upper"] = key(o.c[0].strip(), False, sub)
+        elif o.k == "BinaryOperator" and o.op == "+" and key(o.c[0].strip()) == "1":
+            out["upper"] = key(o.c[1].strip(), False, sub)
+        elif ok_.startswith("(+ ") and ok_.endswith(" 1)"):
+            out["upper"] = ok_[3:-3]
+        else:
+            out["upper"] = "(- %s 1)" % ok_
+    return out
+
+
 def v_ref(v):
     return v
 
